@@ -10,6 +10,7 @@ RULE = ("Instructions assembled by `as` from templates (all 8 presence combinati
         "position p a $deref item D is derived (positive: D's components = T's, spelled with/without '%', with/without '0x', "
         "int or string scalars, fields in any order) and edited by one component (other register incl. suffix/prefix names "
         "ax vs %rax, other scale, 0x8 vs 0x18/0x80, component added / dropped, D applied to a register or immediate operand). "
+        "35 % of the rules carry a config block with the full-match options (which concern names, not $deref), 12 % of the listings have CRLF line ends. "
         "Oracle: real verdict == 'D's present components equal the components of the ORIGINAL objdump text of T' "
         "(R-line mem_components, so the parser's [a+b*c+k] rewriting and the compiler's bracket regex are checked end to end). "
         "Non-trivial = positive, or a one-component edit of a positive; distinct = (D, T, position).")
@@ -134,6 +135,7 @@ def edit(rng, D, att):
 
 def build_rule(rng, ri, p, D):
     ops = []
+    whole = True
     for q in range(p):
         f = ri.ops_norm[q]
         if f is not None and RG.clean(f):
@@ -143,10 +145,17 @@ def build_rule(rng, ri, p, D):
             if not toks:
                 return None
             ops.append(toks[0])
+            whole = False
+    # the full-match options concern names, not $deref: the verdict must be the same under every setting
+    cfg = {}
+    if rng.random() < 0.35:
+        cfg = {"mnemonics-full-match": rng.random() < 0.6, "operands-full-match": whole and rng.random() < 0.7}
     items = list(D.items())
     rng.shuffle(items)
     ops.append({"$deref": dict(items)})
-    return real.dump_rule({"pattern": [{ri.parsed.mnemonic: ops}]})
+    doc = {"config": cfg} if cfg else {}
+    doc["pattern"] = [{ri.parsed.mnemonic: ops}]
+    return real.dump_rule(doc)
 
 
 def judge(ctx, ws, ri, p, D, desc, base_positive):
@@ -155,12 +164,17 @@ def judge(ctx, ws, ri, p, D, desc, base_positive):
     rule = build_rule(ctx.rng, ri, p, D)
     if rule is None:
         return
-    lp = ws.write("one.s", ri.raw + "\n")
+    eol = "\r\n" if ctx.rng.random() < 0.12 else "\n"       # a listing saved with CRLF line ends holds the same operand
+    lp = ws.write("one.s", (ri.raw + eol).encode())
     rp = ws.write("rule.yaml", rule)
     r = real.match(rp, lp, ret="bool")
     ctx.ran()
     ctx.event("deref_cases_judged")
-    case = {"rule": rule, "listing": ri.raw + "\n", "operand": att, "position": p, "expected": want, "desc": desc}
+    if "config:" in rule:
+        ctx.event("deref_cases_with_full_match_options")
+    if eol != "\n":
+        ctx.event("deref_cases_on_crlf_listing")
+    case = {"rule": rule, "listing": ri.raw + eol, "operand": att, "position": p, "expected": want, "desc": desc}
     ctx.case((sorted((k, str(v)) for k, v in D.items()), att, p), base_positive or want,
              stratum=desc.split(":")[0], outcome="found" if (r[0] == "ok" and r[1]) else ("exc" if r[0] != "ok" else "not found"))
     if want:
@@ -244,7 +258,7 @@ def replay(ctx, case):
     doc = yaml.safe_load(case["rule"])
     ops = list(doc["pattern"][0].values())[0]
     D = ops[-1]["$deref"]
-    lp = ws.write("one.s", case["listing"])
+    lp = ws.write("one.s", case["listing"].encode())
     rp = ws.write("rule.yaml", case["rule"])
     r = real.match(rp, lp, ret="bool")
     ctx.ran()
